@@ -94,46 +94,192 @@ fn unit_price_window(m: u8, v: u32) {
 
 //@ prop=C26 tier=quick kind=hold
 //@ enc=gmsol_utils::price::Decimal::{to_unit_price, with_unit_price, multiplier}, u128::pow, u128::div_ceil
-//@ bound=EVERY multiplier 0..=6 (enumerated), EVERY u32 value, EVERY u128 price for the Some/None classification of with_unit_price (floor and ceil); unwind 7
+//@ bound=multipliers {0, 1, 8} (the remaining ones up to 20 are in the thorough tier), EVERY u32 value, EVERY u128 price for the Some/None classification of with_unit_price (floor and ceil); unwind 7
 #[kani::proof]
 #[kani::unwind(7)]
-fn c26_unit_price_multipliers_00_06() {
+fn c26_unit_price_multipliers_quick() {
     unit_price(0);
     unit_price(1);
+    unit_price(8);
+}
+
+//@ prop=C26 tier=thorough kind=hold
+//@ enc=gmsol_utils::price::Decimal::{to_unit_price, with_unit_price, multiplier}, u128::pow, u128::div_ceil
+//@ bound=multiplier 2, EVERY u32 value, EVERY u128 price for the Some/None classification of with_unit_price (floor and ceil); unwind 7 (measured: 10 s at multiplier 8, 520 s at multiplier 20)
+//@ timeout=2400
+#[kani::proof]
+#[kani::unwind(7)]
+fn c26_unit_price_multiplier_02() {
     unit_price(2);
+}
+
+//@ prop=C26 tier=thorough kind=hold
+//@ enc=gmsol_utils::price::Decimal::{to_unit_price, with_unit_price, multiplier}, u128::pow, u128::div_ceil
+//@ bound=multiplier 3, EVERY u32 value, EVERY u128 price for the Some/None classification of with_unit_price (floor and ceil); unwind 7 (measured: 10 s at multiplier 8, 520 s at multiplier 20)
+//@ timeout=2400
+#[kani::proof]
+#[kani::unwind(7)]
+fn c26_unit_price_multiplier_03() {
     unit_price(3);
+}
+
+//@ prop=C26 tier=thorough kind=hold
+//@ enc=gmsol_utils::price::Decimal::{to_unit_price, with_unit_price, multiplier}, u128::pow, u128::div_ceil
+//@ bound=multiplier 4, EVERY u32 value, EVERY u128 price for the Some/None classification of with_unit_price (floor and ceil); unwind 7 (measured: 10 s at multiplier 8, 520 s at multiplier 20)
+//@ timeout=2400
+#[kani::proof]
+#[kani::unwind(7)]
+fn c26_unit_price_multiplier_04() {
     unit_price(4);
+}
+
+//@ prop=C26 tier=thorough kind=hold
+//@ enc=gmsol_utils::price::Decimal::{to_unit_price, with_unit_price, multiplier}, u128::pow, u128::div_ceil
+//@ bound=multiplier 5, EVERY u32 value, EVERY u128 price for the Some/None classification of with_unit_price (floor and ceil); unwind 7 (measured: 10 s at multiplier 8, 520 s at multiplier 20)
+//@ timeout=2400
+#[kani::proof]
+#[kani::unwind(7)]
+fn c26_unit_price_multiplier_05() {
     unit_price(5);
+}
+
+//@ prop=C26 tier=thorough kind=hold
+//@ enc=gmsol_utils::price::Decimal::{to_unit_price, with_unit_price, multiplier}, u128::pow, u128::div_ceil
+//@ bound=multiplier 6, EVERY u32 value, EVERY u128 price for the Some/None classification of with_unit_price (floor and ceil); unwind 7 (measured: 10 s at multiplier 8, 520 s at multiplier 20)
+//@ timeout=2400
+#[kani::proof]
+#[kani::unwind(7)]
+fn c26_unit_price_multiplier_06() {
     unit_price(6);
 }
 
-//@ prop=C26 tier=quick kind=hold
+//@ prop=C26 tier=thorough kind=hold
 //@ enc=gmsol_utils::price::Decimal::{to_unit_price, with_unit_price, multiplier}, u128::pow, u128::div_ceil
-//@ bound=EVERY multiplier 7..=13 (enumerated), EVERY u32 value, EVERY u128 price for the Some/None classification of with_unit_price (floor and ceil); unwind 7
+//@ bound=multiplier 7, EVERY u32 value, EVERY u128 price for the Some/None classification of with_unit_price (floor and ceil); unwind 7 (measured: 10 s at multiplier 8, 520 s at multiplier 20)
+//@ timeout=2400
 #[kani::proof]
 #[kani::unwind(7)]
-fn c26_unit_price_multipliers_07_13() {
+fn c26_unit_price_multiplier_07() {
     unit_price(7);
-    unit_price(8);
+}
+
+//@ prop=C26 tier=thorough kind=hold
+//@ enc=gmsol_utils::price::Decimal::{to_unit_price, with_unit_price, multiplier}, u128::pow, u128::div_ceil
+//@ bound=multiplier 9, EVERY u32 value, EVERY u128 price for the Some/None classification of with_unit_price (floor and ceil); unwind 7 (measured: 10 s at multiplier 8, 520 s at multiplier 20)
+//@ timeout=2400
+#[kani::proof]
+#[kani::unwind(7)]
+fn c26_unit_price_multiplier_09() {
     unit_price(9);
+}
+
+//@ prop=C26 tier=thorough kind=hold
+//@ enc=gmsol_utils::price::Decimal::{to_unit_price, with_unit_price, multiplier}, u128::pow, u128::div_ceil
+//@ bound=multiplier 10, EVERY u32 value, EVERY u128 price for the Some/None classification of with_unit_price (floor and ceil); unwind 7 (measured: 10 s at multiplier 8, 520 s at multiplier 20)
+//@ timeout=2400
+#[kani::proof]
+#[kani::unwind(7)]
+fn c26_unit_price_multiplier_10() {
     unit_price(10);
+}
+
+//@ prop=C26 tier=thorough kind=hold
+//@ enc=gmsol_utils::price::Decimal::{to_unit_price, with_unit_price, multiplier}, u128::pow, u128::div_ceil
+//@ bound=multiplier 11, EVERY u32 value, EVERY u128 price for the Some/None classification of with_unit_price (floor and ceil); unwind 7 (measured: 10 s at multiplier 8, 520 s at multiplier 20)
+//@ timeout=2400
+#[kani::proof]
+#[kani::unwind(7)]
+fn c26_unit_price_multiplier_11() {
     unit_price(11);
+}
+
+//@ prop=C26 tier=thorough kind=hold
+//@ enc=gmsol_utils::price::Decimal::{to_unit_price, with_unit_price, multiplier}, u128::pow, u128::div_ceil
+//@ bound=multiplier 12, EVERY u32 value, EVERY u128 price for the Some/None classification of with_unit_price (floor and ceil); unwind 7 (measured: 10 s at multiplier 8, 520 s at multiplier 20)
+//@ timeout=2400
+#[kani::proof]
+#[kani::unwind(7)]
+fn c26_unit_price_multiplier_12() {
     unit_price(12);
+}
+
+//@ prop=C26 tier=thorough kind=hold
+//@ enc=gmsol_utils::price::Decimal::{to_unit_price, with_unit_price, multiplier}, u128::pow, u128::div_ceil
+//@ bound=multiplier 13, EVERY u32 value, EVERY u128 price for the Some/None classification of with_unit_price (floor and ceil); unwind 7 (measured: 10 s at multiplier 8, 520 s at multiplier 20)
+//@ timeout=2400
+#[kani::proof]
+#[kani::unwind(7)]
+fn c26_unit_price_multiplier_13() {
     unit_price(13);
 }
 
-//@ prop=C26 tier=quick kind=hold
+//@ prop=C26 tier=thorough kind=hold
 //@ enc=gmsol_utils::price::Decimal::{to_unit_price, with_unit_price, multiplier}, u128::pow, u128::div_ceil
-//@ bound=EVERY multiplier 14..=20 (enumerated), EVERY u32 value, EVERY u128 price for the Some/None classification of with_unit_price (floor and ceil); unwind 7
+//@ bound=multiplier 14, EVERY u32 value, EVERY u128 price for the Some/None classification of with_unit_price (floor and ceil); unwind 7 (measured: 10 s at multiplier 8, 520 s at multiplier 20)
+//@ timeout=2400
 #[kani::proof]
 #[kani::unwind(7)]
-fn c26_unit_price_multipliers_14_20() {
+fn c26_unit_price_multiplier_14() {
     unit_price(14);
+}
+
+//@ prop=C26 tier=thorough kind=hold
+//@ enc=gmsol_utils::price::Decimal::{to_unit_price, with_unit_price, multiplier}, u128::pow, u128::div_ceil
+//@ bound=multiplier 15, EVERY u32 value, EVERY u128 price for the Some/None classification of with_unit_price (floor and ceil); unwind 7 (measured: 10 s at multiplier 8, 520 s at multiplier 20)
+//@ timeout=2400
+#[kani::proof]
+#[kani::unwind(7)]
+fn c26_unit_price_multiplier_15() {
     unit_price(15);
+}
+
+//@ prop=C26 tier=thorough kind=hold
+//@ enc=gmsol_utils::price::Decimal::{to_unit_price, with_unit_price, multiplier}, u128::pow, u128::div_ceil
+//@ bound=multiplier 16, EVERY u32 value, EVERY u128 price for the Some/None classification of with_unit_price (floor and ceil); unwind 7 (measured: 10 s at multiplier 8, 520 s at multiplier 20)
+//@ timeout=2400
+#[kani::proof]
+#[kani::unwind(7)]
+fn c26_unit_price_multiplier_16() {
     unit_price(16);
+}
+
+//@ prop=C26 tier=thorough kind=hold
+//@ enc=gmsol_utils::price::Decimal::{to_unit_price, with_unit_price, multiplier}, u128::pow, u128::div_ceil
+//@ bound=multiplier 17, EVERY u32 value, EVERY u128 price for the Some/None classification of with_unit_price (floor and ceil); unwind 7 (measured: 10 s at multiplier 8, 520 s at multiplier 20)
+//@ timeout=2400
+#[kani::proof]
+#[kani::unwind(7)]
+fn c26_unit_price_multiplier_17() {
     unit_price(17);
+}
+
+//@ prop=C26 tier=thorough kind=hold
+//@ enc=gmsol_utils::price::Decimal::{to_unit_price, with_unit_price, multiplier}, u128::pow, u128::div_ceil
+//@ bound=multiplier 18, EVERY u32 value, EVERY u128 price for the Some/None classification of with_unit_price (floor and ceil); unwind 7 (measured: 10 s at multiplier 8, 520 s at multiplier 20)
+//@ timeout=2400
+#[kani::proof]
+#[kani::unwind(7)]
+fn c26_unit_price_multiplier_18() {
     unit_price(18);
+}
+
+//@ prop=C26 tier=thorough kind=hold
+//@ enc=gmsol_utils::price::Decimal::{to_unit_price, with_unit_price, multiplier}, u128::pow, u128::div_ceil
+//@ bound=multiplier 19, EVERY u32 value, EVERY u128 price for the Some/None classification of with_unit_price (floor and ceil); unwind 7 (measured: 10 s at multiplier 8, 520 s at multiplier 20)
+//@ timeout=2400
+#[kani::proof]
+#[kani::unwind(7)]
+fn c26_unit_price_multiplier_19() {
     unit_price(19);
+}
+
+//@ prop=C26 tier=thorough kind=hold
+//@ enc=gmsol_utils::price::Decimal::{to_unit_price, with_unit_price, multiplier}, u128::pow, u128::div_ceil
+//@ bound=multiplier 20, EVERY u32 value, EVERY u128 price for the Some/None classification of with_unit_price (floor and ceil); unwind 7 (measured: 10 s at multiplier 8, 520 s at multiplier 20)
+//@ timeout=2400
+#[kani::proof]
+#[kani::unwind(7)]
+fn c26_unit_price_multiplier_20() {
     unit_price(20);
 }
 
@@ -201,7 +347,7 @@ fn token_config(tdec: u8, prec: u8) -> TokenConfig {
     c
 }
 
-fn pyth_exponent(exponent: i32) {
+fn pyth_exponent(exponent: i32) -> (bool, bool) {
     let value: u64 = kani::any();
     let (tdec, prec): (u8, u8) = (kani::any(), kani::any());
     let ok: bool = kani::any();
@@ -236,7 +382,9 @@ fn pyth_exponent(exponent: i32) {
             assert!(seen.is_none() && r.is_err(), "C26: unrepresentable exponent / overflowing price not reported as an error");
         }
     }
+    let w = (expect.is_some() && r.is_ok(), expect.is_none());
     std::mem::forget(r);
+    w
 }
 
 //@ prop=C26 tier=quick kind=hold
@@ -249,7 +397,8 @@ fn pyth_exponent(exponent: i32) {
 fn c26_pyth_exponent_non_positive_or_too_big() {
     let exponent: i32 = kani::any();
     kani::assume(exponent != i32::MIN && (exponent <= 0 || exponent >= 20));
-    pyth_exponent(exponent);
+    let w = pyth_exponent(exponent);
+    kani::cover!(w.0, "price handed over and converted");
     kani::cover!(exponent == -255, "smallest exponent whose negation fits u8");
     kani::cover!(exponent == -256, "exponent too small");
     kani::cover!(exponent == 0, "zero exponent");
@@ -265,9 +414,19 @@ fn c26_pyth_exponent_non_positive_or_too_big() {
 #[kani::stub(gmsol_utils::price::decimal::Decimal::try_from_price, try_from_price_probe)]
 #[kani::unwind(34)]
 fn c26_pyth_exponent_positive() {
-    pyth_exponent(1);
-    pyth_exponent(8);
-    pyth_exponent(19);
+    let mut ok = false;
+    let mut rejected = false;
+    let w = pyth_exponent(1);
+    ok |= w.0;
+    rejected |= w.1;
+    let w = pyth_exponent(8);
+    ok |= w.0;
+    rejected |= w.1;
+    let w = pyth_exponent(19);
+    ok |= w.0;
+    rejected |= w.1;
+    kani::cover!(ok, "price handed over and converted");
+    kani::cover!(rejected, "price overflowing u64 rejected");
 }
 
 //@ prop=C26 tier=thorough kind=hold
@@ -279,12 +438,28 @@ fn c26_pyth_exponent_positive() {
 #[kani::stub(gmsol_utils::price::decimal::Decimal::try_from_price, try_from_price_probe)]
 #[kani::unwind(34)]
 fn c26_pyth_exponent_positive_02_07() {
-    pyth_exponent(2);
-    pyth_exponent(3);
-    pyth_exponent(4);
-    pyth_exponent(5);
-    pyth_exponent(6);
-    pyth_exponent(7);
+    let mut ok = false;
+    let mut rejected = false;
+    let w = pyth_exponent(2);
+    ok |= w.0;
+    rejected |= w.1;
+    let w = pyth_exponent(3);
+    ok |= w.0;
+    rejected |= w.1;
+    let w = pyth_exponent(4);
+    ok |= w.0;
+    rejected |= w.1;
+    let w = pyth_exponent(5);
+    ok |= w.0;
+    rejected |= w.1;
+    let w = pyth_exponent(6);
+    ok |= w.0;
+    rejected |= w.1;
+    let w = pyth_exponent(7);
+    ok |= w.0;
+    rejected |= w.1;
+    kani::cover!(ok, "price handed over and converted");
+    kani::cover!(rejected, "price overflowing u64 rejected");
 }
 
 //@ prop=C26 tier=thorough kind=hold
@@ -296,11 +471,25 @@ fn c26_pyth_exponent_positive_02_07() {
 #[kani::stub(gmsol_utils::price::decimal::Decimal::try_from_price, try_from_price_probe)]
 #[kani::unwind(34)]
 fn c26_pyth_exponent_positive_09_13() {
-    pyth_exponent(9);
-    pyth_exponent(10);
-    pyth_exponent(11);
-    pyth_exponent(12);
-    pyth_exponent(13);
+    let mut ok = false;
+    let mut rejected = false;
+    let w = pyth_exponent(9);
+    ok |= w.0;
+    rejected |= w.1;
+    let w = pyth_exponent(10);
+    ok |= w.0;
+    rejected |= w.1;
+    let w = pyth_exponent(11);
+    ok |= w.0;
+    rejected |= w.1;
+    let w = pyth_exponent(12);
+    ok |= w.0;
+    rejected |= w.1;
+    let w = pyth_exponent(13);
+    ok |= w.0;
+    rejected |= w.1;
+    kani::cover!(ok, "price handed over and converted");
+    kani::cover!(rejected, "price overflowing u64 rejected");
 }
 
 //@ prop=C26 tier=thorough kind=hold
@@ -312,11 +501,25 @@ fn c26_pyth_exponent_positive_09_13() {
 #[kani::stub(gmsol_utils::price::decimal::Decimal::try_from_price, try_from_price_probe)]
 #[kani::unwind(34)]
 fn c26_pyth_exponent_positive_14_18() {
-    pyth_exponent(14);
-    pyth_exponent(15);
-    pyth_exponent(16);
-    pyth_exponent(17);
-    pyth_exponent(18);
+    let mut ok = false;
+    let mut rejected = false;
+    let w = pyth_exponent(14);
+    ok |= w.0;
+    rejected |= w.1;
+    let w = pyth_exponent(15);
+    ok |= w.0;
+    rejected |= w.1;
+    let w = pyth_exponent(16);
+    ok |= w.0;
+    rejected |= w.1;
+    let w = pyth_exponent(17);
+    ok |= w.0;
+    rejected |= w.1;
+    let w = pyth_exponent(18);
+    ok |= w.0;
+    rejected |= w.1;
+    kani::cover!(ok, "price handed over and converted");
+    kani::cover!(rejected, "price overflowing u64 rejected");
 }
 
 //@ prop=C26 tier=quick kind=hold
@@ -327,5 +530,6 @@ fn c26_pyth_exponent_positive_14_18() {
 #[kani::stub(gmsol_utils::price::decimal::Decimal::try_from_price, try_from_price_probe)]
 #[kani::unwind(34)]
 fn c26_pyth_exponent_min() {
-    pyth_exponent(i32::MIN);
+    let w = pyth_exponent(i32::MIN);
+    kani::cover!(w.1, "exponent i32::MIN reported as an error");
 }
